@@ -274,7 +274,9 @@ def run_noncausal(c):
 
 # ------------------------------------------------------------------ exact types / value-equal twins
 def strat_twins(tier):
-  ic = st.integers(-4, 4)
+  # small ints, and ints no double can hold (they must reach the generated code digit for digit)
+  ic = st.one_of(st.integers(-4, 4), st.integers(-4, 4), st.integers(-4, 4),
+                 st.sampled_from([2 ** 64 + 1, -(10 ** 17 + 1), 2 ** 53 + 1, 3 ** 40]))
   fx = st.fractions(min_value=-4, max_value=4, max_denominator=9)
   return st.fixed_dictionaries(dict(
     b=st.lists(ic, min_size=1, max_size=4), a0=st.sampled_from([1, -1, 2, -3, 1, 4]),
@@ -328,6 +330,43 @@ def run_twins(c):
   if len(got) != len(x):
     raise Violation("%d outputs for %d inputs" % (len(got), len(x)))
   return {"nontrivial": lm >= 1 and len(x) > lm, "labels": [order, "big ints" if ints else "Fractions"]}
+
+
+# ------------------------------------------------------------------ long filters
+def strat_long(tier):
+  return st.fixed_dictionaries(dict(
+    taps=st.integers(60, 140 if tier == "quick" else 300),
+    pattern=st.lists(st.integers(-3, 3), min_size=5, max_size=9),
+    feedback=st.lists(st.tuples(st.integers(1, 3), st.sampled_from([1, -1, 2, -3])), max_size=2,
+                      unique_by=lambda t: t[0]),
+    extra=st.integers(1, 9), x0=st.lists(qv, min_size=3, max_size=3),
+    zero=st.sampled_from([Q(0), Q(2, 3), 0.0])))
+
+
+def run_long(c):
+  """Every tap of a long filter contributes, wherever the generated sum is split or grouped."""
+  n = c["taps"]
+  pat = c["pattern"]
+  if not any(pat):
+    pat = [1] + pat[1:]
+  b = {k: pat[k % len(pat)] + (k % 7 == 3) for k in range(n)}
+  b[n - 1] = 2                                   # the last tap matters
+  a = dict((k, v) for k, v in c["feedback"])
+  a[0] = 1
+  nzb = {k: v for k, v in b.items() if v != 0}
+  x = [c["x0"][i % 3] + (i % 5) for i in range(n + c["extra"])]
+  got = list(ZFilter(dict(nzb), dict(a))(list(x), zero=c["zero"]))
+  exp = diffeq_ref(nzb, a, x, c["zero"], None)
+  if len(got) != len(x):
+    raise Violation("%d outputs for %d inputs" % (len(got), len(x)))
+  for i, (g, e) in enumerate(zip(got, exp)):
+    if not (g == e):
+      raise Violation("a filter with %d feed-forward and %d feedback terms: y[%d] = %r, expected %r"
+                      % (len(nzb), len(a) - 1, i, g, e))
+  terms = len(nzb) + len(a) - 1
+  return {"nontrivial": True, "labels": ["terms mod 64 = 0" if terms % 64 == 0 else "terms mod 64 != 0",
+                                         ">64 terms" if terms > 64 else "<=64 terms",
+                                         ">128 terms" if terms > 128 else "<=128 terms"]}
 
 
 # ------------------------------------------------------------------ complex coefficients
@@ -399,6 +438,8 @@ CLAUSES = [
   Clause("exact_twins", strat_twins, run_twins, quick=800, thorough=15000,
          floors={"float twin first": .2, "big ints": .1},
          doc="integer coefficients on plain Fractions / ints beyond 2**53 stay exact, also right after a value-equal float-spelled filter ran"),
+  Clause("long_filters", strat_long, run_long, quick=160, thorough=2000, floors={">64 terms": .5},
+         doc="filters with 60..140 (thorough ..300) taps: every term of a long generated sum contributes"),
   Clause("complex_coefficients", strat_complex, run_complex, quick=800, thorough=15000,
          floors={"unit-modulus complex feedback": .1, "complex a0": .1},
          doc="complex coefficients (incl. modulus exactly 1) against the difference equation in complex arithmetic, tol 1e-9 x magnitude"),
